@@ -131,8 +131,9 @@ theorem c13_full_violated_by_numberDigitFollow :
   constructor <;> decide
 
 /-- `{a(b:["""" ""])}`: four quotes open a block string that is never closed, so the text is no
-    token sequence; the pinned `string` rule falls back to the plain alternative and reads three
-    empty strings (the real parser accepts it).  Repaired by `!"\"\"\""` before the plain alternative. -/
+    token sequence; the `string` rule without the guard `!"\"\"\""` before its plain alternative (the
+    tree before cf2b035, toggle on) falls back to that alternative and reads three empty strings; the
+    guarded rule (the generated grammar now, toggle off) rejects. -/
 theorem c13_full_violated_by_emptyStringBeforeQuote :
     AGV.Spec.Parse.parseDocument {} "{a(b:[\"\"\"\" \"\"])}".toList = none ∧
     (match parseQuery { emptyStringBeforeQuote := true } "{a(b:[\"\"\"\" \"\"])}".toList with
